@@ -49,7 +49,7 @@ pub fn parse_list(a: &[&str], k: usize) -> (Vec<i64>, usize) {
 pub fn to_string(cps: &[i64]) -> String {
     cps.iter().map(|c| char::from_u32(*c as u32).expect("invalid code point in case line")).collect()
 }
-pub fn with_synth_font<R>(s: &FontSpec, repl: usize, mapstr: &str, f: impl FnOnce(&MonoFont) -> R) -> R {
+pub fn with_synth_font(s: &FontSpec, repl: usize, mapstr: &str, f: impl Fn(&MonoFont) -> String) -> String {
     let data = atlas_data(s.w, s.h);
     let image = ImageRaw::<BinaryColor>::new(&data, Size::new(s.w, s.h)).unwrap();
     let mapping = StrGlyphMapping::new(mapstr, repl);
@@ -62,7 +62,15 @@ pub fn with_synth_font<R>(s: &FontSpec, repl: usize, mapstr: &str, f: impl FnOnc
         underline: DecorationDimensions::new(s.uo, s.uh),
         glyph_mapping: &mapping,
     };
-    f(&font)
+    let r = f(&font);
+    // the same font with a CLOSURE glyph mapping (`impl<F: Fn(char) -> usize> GlyphMapping for F`, mapping.rs:56): same answer
+    let closure = |c: char| mapping.index(c);
+    let font2 = MonoFont { glyph_mapping: &closure, ..font };
+    let r2 = f(&font2);
+    if r2 != r {
+        return format!("CLOSURE-MAPPING-DIFFERS FAIL with a closure glyph mapping the answer is {} instead of {}", &r2[..r2.len().min(120)], &r[..r.len().min(120)]);
+    }
+    r
 }
 fn col(s: &str) -> Option<Gray8> {
     if s == "0" { None } else { Some(Gray8::new(u(s) as u8)) }
@@ -70,14 +78,115 @@ fn col(s: &str) -> Option<Gray8> {
 fn dcol(s: &str) -> DecorationColor<Gray8> {
     match s { "0" => DecorationColor::None, "-1" => DecorationColor::TextColor, _ => DecorationColor::Custom(Gray8::new(u(s) as u8)) }
 }
-/// style from 4 tokens: text colour, background colour (0 = none), underline, strikethrough (0 none, -1 text colour, else custom)
+/// field-by-field comparison (the public fields are the absolute reference; `==` of the library is not relied upon)
+fn same_style(x: &MonoTextStyle<'_, Gray8>, y: &MonoTextStyle<'_, Gray8>) -> bool {
+    x.text_color == y.text_color && x.background_color == y.background_color && x.underline_color == y.underline_color
+        && x.strikethrough_color == y.strikethrough_color && core::ptr::eq(x.font, y.font)
+}
+#[track_caller]
+fn api_fail(what: &str, got: &MonoTextStyle<'_, Gray8>, want: &MonoTextStyle<'_, Gray8>) -> ! {
+    panic!("STYLE-API {}: built (text {:?}, background {:?}, underline {:?}, strikethrough {:?}, same font {}) but the fields requested are (text {:?}, background {:?}, underline {:?}, strikethrough {:?})",
+           what, got.text_color, got.background_color, got.underline_color, got.strikethrough_color, core::ptr::eq(got.font, want.font),
+           want.text_color, want.background_color, want.underline_color, want.strikethrough_color)
+}
+/// applies the four requested roles with the builder's setters
+fn apply_setters<'a>(mut b: MonoTextStyleBuilder<'a, Gray8>, a: &[&str]) -> MonoTextStyleBuilder<'a, Gray8> {
+    if let Some(c) = col(a[0]) { b = b.text_color(c); }
+    if let Some(c) = col(a[1]) { b = b.background_color(c); }
+    b = match dcol(a[2]) { DecorationColor::None => b, DecorationColor::TextColor => b.underline(), DecorationColor::Custom(c) => b.underline_with_color(c) };
+    b = match dcol(a[3]) { DecorationColor::None => b, DecorationColor::TextColor => b.strikethrough(), DecorationColor::Custom(c) => b.strikethrough_with_color(c) };
+    b
+}
+/// style from 4 tokens: text colour, background colour (0 = none), underline, strikethrough (0 none, -1 text colour, else custom).
+/// The reference style is made by assigning the public fields; the SAME style is then built through every public way of
+/// building / modifying a MonoTextStyle and must come out identical (a difference panics = `PANIC c14.rs:<line>` in the answer).
+/// The API-built style is what the suites go on to draw with.
 pub fn mk_style<'a>(font: &'a MonoFont<'a>, a: &[&str]) -> MonoTextStyle<'a, Gray8> {
     let mut st = MonoTextStyleBuilder::<Gray8>::new().font(font).build();
     st.text_color = col(a[0]);
     st.background_color = col(a[1]);
     st.underline_color = dcol(a[2]);
     st.strikethrough_color = dcol(a[3]);
-    st
+    // (a) builder, font() first / font() LAST (font() copies the four colours of the builder it is called on)
+    let first = apply_setters(MonoTextStyleBuilder::<Gray8>::new().font(font), a).build();
+    if !same_style(&first, &st) { api_fail("builder, font() first", &first, &st); }
+    let last = apply_setters(MonoTextStyleBuilder::<Gray8>::new(), a).font(font).build();
+    if !same_style(&last, &st) { api_fail("builder, font() last", &last, &st); }
+    // (b) From<&MonoTextStyle>, library `==`, Default
+    let again = MonoTextStyleBuilder::from(&st).build();
+    if !same_style(&again, &st) { api_fail("MonoTextStyleBuilder::from(&style).build()", &again, &st); }
+    if !(last == st) { api_fail("PartialEq says the identical style differs", &last, &st); }
+    let dflt = MonoTextStyleBuilder::<Gray8>::default().build();
+    let blank = MonoTextStyleBuilder::<Gray8>::new().build();
+    if dflt.text_color.is_some() || dflt.background_color.is_some() || dflt.underline_color != DecorationColor::None
+        || dflt.strikethrough_color != DecorationColor::None || !core::ptr::eq(dflt.font, blank.font) || !dflt.is_transparent() {
+        panic!("STYLE-API MonoTextStyleBuilder::default() is not the blank style");
+    }
+    // (c) MonoTextStyle::new = only a text colour
+    if let (Some(c), None, DecorationColor::None, DecorationColor::None) = (st.text_color, st.background_color, st.underline_color, st.strikethrough_color) {
+        let n = MonoTextStyle::new(font, c);
+        if !same_style(&n, &st) { api_fail("MonoTextStyle::new(font, colour)", &n, &st); }
+    }
+    // (d) reset_*: start from a builder with all four roles set to something else, reset what is not wanted
+    {
+        let junk = Gray8::new(251);
+        let mut b = MonoTextStyleBuilder::<Gray8>::new().text_color(junk).background_color(junk).underline_with_color(junk).strikethrough_with_color(junk).font(font);
+        if st.text_color.is_none() { b = b.reset_text_color(); }
+        if st.background_color.is_none() { b = b.reset_background_color(); }
+        if st.underline_color == DecorationColor::None { b = b.reset_underline(); }
+        if st.strikethrough_color == DecorationColor::None { b = b.reset_strikethrough(); }
+        let r = apply_setters(b, a).build();
+        if !same_style(&r, &st) { api_fail("builder with reset_* of the unwanted roles", &r, &st); }
+        // each reset alone clears exactly its own field
+        let full = MonoTextStyleBuilder::from(&r);
+        let mut w = r; w.text_color = None;
+        let g = full.reset_text_color().build(); if !same_style(&g, &w) { api_fail("reset_text_color", &g, &w); }
+        let mut w = r; w.background_color = None;
+        let g = full.reset_background_color().build(); if !same_style(&g, &w) { api_fail("reset_background_color", &g, &w); }
+        let mut w = r; w.underline_color = DecorationColor::None;
+        let g = full.reset_underline().build(); if !same_style(&g, &w) { api_fail("reset_underline", &g, &w); }
+        let mut w = r; w.strikethrough_color = DecorationColor::None;
+        let g = full.reset_strikethrough().build(); if !same_style(&g, &w) { api_fail("reset_strikethrough", &g, &w); }
+    }
+    // (e) CharacterStyle setters (the trait has no-op defaults): from a blank and from a fully set style
+    {
+        use embedded_graphics::text::renderer::CharacterStyle;
+        let junk = Gray8::new(251);
+        for start in [MonoTextStyleBuilder::<Gray8>::new().font(font).build(),
+                      MonoTextStyleBuilder::<Gray8>::new().font(font).text_color(junk).background_color(junk).underline_with_color(junk).strikethrough().build()] {
+            let mut s2 = start;
+            s2.set_text_color(st.text_color);
+            s2.set_background_color(st.background_color);
+            s2.set_underline_color(st.underline_color);
+            s2.set_strikethrough_color(st.strikethrough_color);
+            if !same_style(&s2, &st) { api_fail("CharacterStyle::set_*_color", &s2, &st); }
+        }
+    }
+    if a[0].len() % 2 == 0 { first } else { last }
+}
+/// reference for TextRenderer::draw_whitespace: background rectangle width x character height (if a background is set),
+/// strikethrough then underline over the width, nothing at all for width 0
+pub fn expected_whitespace(font: &MonoFont, width: i32, x: i32, ytop: i32, bc: Option<u32>, ul: Option<u32>, st: Option<u32>) -> BTreeMap<(i32, i32), u32> {
+    let mut m = BTreeMap::new();
+    if width == 0 { return m; }
+    if let Some(v) = bc { for dy in 0..font.character_size.height as i32 { for dx in 0..width { m.insert((ytop + dy, x + dx), v); } } }
+    for (colr, d) in [(st, font.strikethrough), (ul, font.underline)] {
+        if let Some(v) = colr { for dy in 0..d.height as i32 { for dx in 0..width { m.insert((ytop + d.offset as i32 + dy, x + dx), v); } } }
+    }
+    m
+}
+/// draw_whitespace on both targets against the reference; Err(description) on a difference
+pub fn check_whitespace(font: &MonoFont, st: &MonoTextStyle<'_, Gray8>, sty: &[&str], width: u32, p: Point, bl: Baseline) -> Result<(), String> {
+    let mut nat = NativeTarget::<Gray8>::new(big());
+    let rn = st.draw_whitespace(width, p, bl, &mut nat).unwrap();
+    let mut it = IterTarget::<Gray8>::new(big());
+    let ri = st.draw_whitespace(width, p, bl, &mut it).unwrap();
+    if nat.map != it.map || rn != ri { return Err("draw_whitespace: native and draw_iter-only targets differ".into()); }
+    let (tc, bc) = (optc(sty[0]), optc(sty[1]));
+    let exp = expected_whitespace(font, width as i32, p.x, p.y - baseline_off(font, bl), bc, eff(sty[2], tc), eff(sty[3], tc));
+    if nat.map != exp { return Err(format!("draw_whitespace({}): {}", width, first_diff(&nat.map, &exp))); }
+    if rn != Point::new(p.x + width as i32, p.y) { return Err(format!("draw_whitespace({}) returned {:?}, expected {:?}", width, rn, Point::new(p.x + width as i32, p.y))); }
+    Ok(())
 }
 pub fn baseline_of(s: &str) -> Baseline {
     match s { "0" => Baseline::Top, "1" => Baseline::Bottom, "2" => Baseline::Middle, _ => Baseline::Alphabetic }
@@ -368,6 +477,24 @@ pub fn search(suite: &str, a: &[&str]) -> Option<String> {
             if nat.map != exp { return Some(format!("FAIL line {:?} in {}: {}", text, a[0], first_diff(&nat.map, &exp))); }
             let n = text.chars().count() as i32;
             if rn != Point::new(x + n * font.character_size.width as i32, y) { return Some(format!("FAIL next position {:?}", rn)); }
+            // TextRenderer::draw_whitespace: widths 0, n cells, and an odd width; against the reference, and against
+            // draw_string of n spaces when the font's ' ' glyph is blank
+            let cw = font.character_size.width;
+            for w in [0, n as u32 * cw, n as u32 * cw + 3] {
+                if let Err(e) = check_whitespace(font, &st, sty, w, Point::new(x, y), bl) { return Some(format!("FAIL {} in {}", e, a[0])); }
+            }
+            {
+                let (sx, sy) = cell_of(font, ' ');
+                let blank = (0..ch).all(|dy| (0..cw as i32).all(|dx| atlas_on(font, sx + dx, sy + dy) == Some(false)));
+                if blank {
+                    let spaces = " ".repeat(n as usize);
+                    let mut t1 = NativeTarget::<Gray8>::new(big());
+                    let r1 = st.draw_string(&spaces, Point::new(x, y), bl, &mut t1).unwrap();
+                    let mut t2 = NativeTarget::<Gray8>::new(big());
+                    let r2 = st.draw_whitespace(n as u32 * cw, Point::new(x, y), bl, &mut t2).unwrap();
+                    if t1.map != t2.map || r1 != r2 { return Some(format!("FAIL draw_whitespace({}) differs from draw_string of {} spaces in {}: {} (returned {:?} vs {:?})", n as u32 * cw, n, a[0], first_diff(&t2.map, &t1.map), r2, r1)); }
+                }
+            }
             format!("OK {}", nat.map.len())
         }
         // p_c14_deco_defaults <glyph height>: the helpers for custom fonts follow their documentation
@@ -417,6 +544,9 @@ pub fn search(suite: &str, a: &[&str]) -> Option<String> {
                 let exp = match expected_line_ex(font, &text, x, y - baseline_off(font, bl), tc, bc, eff(sty[2], tc), eff(sty[3], tc), false) {
                     Ok(m) => m, Err(e) => return format!("FAIL {}", e) };
                 if nat.map != exp { return format!("FAIL custom font line {:?}: {}", text, first_diff(&nat.map, &exp)); }
+                for w in [0u32, 1, spec.cw * 2 + spec.sp, 17] {
+                    if let Err(e) = check_whitespace(font, &st, sty, w, Point::new(x, y), bl) { return format!("FAIL custom font {}", e); }
+                }
                 format!("OK {}", nat.map.len())
             })
         }
